@@ -134,7 +134,7 @@ func runC03(c *c03Case, r *rng) string {
 	}
 	replies := make([]string, len(c.reqs))
 	get := func(sc *simClient) string {
-		v, err := sc.recv(time.Duration(float64(4*time.Second) * loadFactor))
+		v, err := sc.recvPatient(4 * time.Second)
 		if err != nil {
 			return "TIMEOUT"
 		}
@@ -406,6 +406,24 @@ func c03Main(flavor string) {
 			}
 			writeHist(hist)
 			return
+		}
+		// commands over thousands of keys: more children in flight to one node than its request queue (1024) holds
+		for _, name := range []string{"mget", "del", "mset"} {
+			args := [][]byte{[]byte(name)}
+			for k := 0; k < 3000; k++ {
+				args = append(args, []byte("bulk"+strconv.Itoa(k)))
+				if name == "mset" {
+					args = append(args, []byte("v"+strconv.Itoa(k%7)))
+				}
+			}
+			layout := "0-16383=0"
+			nn := 1
+			if name != "mget" {
+				layout, nn = "0-8000=0,8001-16383=1", 2
+			}
+			ds := strings.TrimSuffix(strings.Repeat("0,", nn), ",")
+			runLine(fmt.Sprintf("seq %d %s %s # 0:%s ; 0:%s", nn, layout, ds, bulkArr(args...).String(), bulkArr([]byte("get"), []byte("bulk7")).String()))
+			hist["commands over 3000 keys"]++
 		}
 		big := 0
 		for i := 0; i < *fN; i++ {
